@@ -12,6 +12,7 @@ from __future__ import annotations
 
 import ast
 import importlib
+import re
 import multiprocessing as mp
 import os
 import time
@@ -108,6 +109,79 @@ class Src:
         return s.text()
 
 
+def apply_unified_diff(diff_text: str, read) -> dict:
+    """Apply a `git diff` (text files, modifications only) in memory.  `read(relpath)` returns the current text.
+    Returns {relpath: new text}."""
+    out = {}
+    files = re.split(r"^diff --git .*$", diff_text, flags=re.M)[1:]
+    for block in files:
+        m = re.search(r"^\+\+\+ b/(.+)$", block, flags=re.M)
+        if not m:
+            continue
+        rel = m.group(1).strip()
+        src = read(rel).replace("\r\n", "\n").split("\n")
+        hunks = re.split(r"^@@ .*?@@.*$", block, flags=re.M)[1:]
+        heads = re.findall(r"^@@ -(\d+)(?:,(\d+))? \+(\d+)(?:,(\d+))? @@", block, flags=re.M)
+        res = []
+        pos = 0
+        for (a, _al, _b, _bl), body in zip(heads, hunks):
+            start = int(a) - 1
+            res += src[pos:start]
+            pos = start
+            for ln in body.split("\n")[1:]:
+                if ln.startswith("\\"):
+                    continue
+                if ln.startswith("+"):
+                    res.append(ln[1:])
+                elif ln.startswith("-"):
+                    if src[pos].rstrip("\r") != ln[1:].rstrip("\r"):
+                        raise AnalysisError(f"seeded patch does not apply to {rel} at line {pos + 1}")
+                    pos += 1
+                elif ln.startswith(" ") or ln == "":
+                    if pos < len(src) and (ln[1:] if ln else "") == src[pos]:
+                        res.append(src[pos])
+                        pos += 1
+                    elif ln == "":
+                        continue
+                    else:
+                        raise AnalysisError(f"seeded patch context mismatch in {rel} at line {pos + 1}")
+        res += src[pos:]
+        out[rel] = "\n".join(res)
+    return out
+
+
+def seeded_variants(prop: str, project: Project) -> list:
+    """Kept red-team changes (/verif/seeded/<id>/) that the checks are expected to catch, replayed as mutants."""
+    root = os.path.join(os.path.dirname(os.path.dirname(os.path.abspath(__file__))), "seeded")
+    out = []
+    if not os.path.isdir(root):
+        return out
+    import json
+
+    for sid in sorted(os.listdir(root)):
+        mp = os.path.join(root, sid, "meta.json")
+        pp = os.path.join(root, sid, "patch.diff")
+        if not (os.path.exists(mp) and os.path.exists(pp)):
+            continue
+        meta = json.load(open(mp))
+        if meta.get("breaks_property") != prop or not meta.get("expected_caught", meta.get("caught")):
+            continue
+
+        def read(rel):
+            for m in project.modules.values():
+                if m.relpath == rel:
+                    return m.source
+            with open(os.path.join(project.repo, rel), encoding="utf-8", newline="") as fh:
+                return fh.read()
+
+        try:
+            overlay = apply_unified_diff(open(pp).read(), read)
+        except AnalysisError:
+            continue  # the tree moved on; the seed no longer applies (not a failure of the checker)
+        out.append(Variant(f"{prop}-seed-{sid}", prop, "mutant", f"seeded red-team change {sid}: {meta.get('title', '')}"[:120], overlay, expect=[], rule=prop))
+    return out
+
+
 def parses(text) -> bool:
     try:
         ast.parse(text)
@@ -166,7 +240,7 @@ def variants_for(prop: str, project: Project) -> list[Variant]:
             except Exception:  # pragma: no cover
                 pass
     out.append(Variant(f"{prop}-twin-relayout", prop, "twin", "whole package re-laid-out with ast.unparse (formatting, comments and line numbers change)", overlay))
-    for v in mod.generate(project):
+    for v in list(mod.generate(project)) + seeded_variants(prop, project):
         bad = [p for p, t in v.overlay.items() if p.endswith(".py") and not parses(t)]
         if bad:
             raise AnalysisError(f"self-test variant {v.vid} does not parse ({bad})")
